@@ -1,0 +1,100 @@
+//go:build verif
+
+// Contracts for govc (see /verif/DESIGN.md). Comment-only: compiled only with -tags verif.
+package onepass
+
+// ---- transition packing: the accessors are mutual inverses of the constructors (C14) ----
+
+//@ func NewTransition
+//@   props C14 C07
+//@   arith mixed
+//@   requires next <= 0x1FFFFF
+//@   ensures uint32((result >> 43) & 0x1FFFFF) == next
+//@   ensures ((result & 0x40000000000) != 0) == matchWins
+//@   ensures uint32(result & 0xFFFFFFFF) == slots
+//@   ensures (result & 0x3FF00000000) == 0
+
+//@ func (Transition).NextState
+//@   props C14 C07
+//@   arith mixed
+//@   ensures result == uint32((t >> 43) & 0x1FFFFF) && result <= 0x1FFFFF
+//@ func (Transition).IsDead
+//@   props C14 C07
+//@   arith mixed
+//@   ensures result == (uint32((t >> 43) & 0x1FFFFF) == 0)
+//@ func (Transition).IsMatchWins
+//@   props C14 C07
+//@   arith mixed
+//@   ensures result == ((t & 0x40000000000) != 0)
+//@ func (Transition).SlotMask
+//@   props C14 C07
+//@   arith mixed
+//@   ensures result == uint32(t & 0xFFFFFFFF)
+//@ func (Transition).LookAround
+//@   props C14 C07
+//@   arith mixed
+//@   ensures result == uint16((t & 0x3FF00000000) >> 32) && result <= 0x3FF
+//@ func (Transition).WithSlotMask
+//@   props C14 C07
+//@   arith mixed
+//@   ensures uint32(result & 0xFFFFFFFF) == slots && (result >> 32) == (t >> 32)
+//@ func (Transition).WithLookAround
+//@   props C14 C07
+//@   arith mixed
+//@   requires look <= 0x3FF
+//@   ensures uint16((result & 0x3FF00000000) >> 32) == look && (result & 0xFFFFFC00FFFFFFFF) == (t & 0xFFFFFC00FFFFFFFF)
+
+//@ func (Transition).UpdateSlots
+//@   props C03 C07 C05
+//@   arith mixed
+//@   modifies slots[*]
+//@   ensures forall j :: 0 <= j && j < len(slots) ==> slots[j] == pos || slots[j] == old(slots[j])
+//@   ensures forall j :: 32 <= j && j < len(slots) ==> slots[j] == old(slots[j])
+//@   loop 1: invariant 0 <= i && i <= 32
+//@   loop 1: invariant forall j :: 0 <= j && j < len(slots) ==> slots[j] == pos || slots[j] == old(slots[j])
+//@   loop 1: invariant forall j :: i <= j && j < len(slots) ==> slots[j] == old(slots[j])
+//@   loop 1: decreases 32 - i
+
+//@ func applyMatchSlots
+//@   props C03 C07 C05
+//@   arith mixed
+//@   modifies slots[*]
+//@   ensures forall j :: 0 <= j && j < len(slots) ==> slots[j] == pos || slots[j] == old(slots[j])
+//@   loop 1: invariant 0 <= i && i <= len(slots)
+//@   loop 1: invariant forall j :: 0 <= j && j < len(slots) ==> slots[j] == pos || slots[j] == old(slots[j])
+//@   loop 1: decreases len(slots) - i
+
+// ---- per-search cache (C13) ----
+
+//@ func (*Cache).Reset
+//@   props C13 C07
+//@   requires c != nil
+//@   modifies c.slots[*]
+//@   ensures forall j :: 0 <= j && j < len(c.slots) ==> c.slots[j] == -1
+//@   loop 1: invariant -1 <= rangeindex && rangeindex <= rangelen && rangelen == len(c.slots)
+//@   loop 1: invariant forall j :: 0 <= j && j <= rangeindex ==> c.slots[j] == -1
+//@   loop 1: decreases rangelen - rangeindex
+
+//@ func (*Cache).Slots
+//@   props C07
+//@   requires c != nil
+//@   ensures sameslice(result, c.slots)
+
+// The one-pass simulation itself is out of reach (DESIGN 7.1); ASSUMED: the result is nil or the cache's slot
+// slice holding offsets relative to the searched input.
+//@ trusted func (*DFA).Search
+//@   requires d != nil && cache != nil
+//@   modifies cache.slots[*]
+//@   ensures result == nil || sameslice(result, cache.slots)
+//@   ensures result != nil ==> (forall j :: 0 <= j && j < len(result) ==> -1 <= result[j] && result[j] <= len(input))
+
+//@ func (*DFA).SearchAt
+//@   props C03 C07 C05
+//@   requires d != nil && cache != nil
+//@   modifies cache.slots[*]
+//@   ensures result != nil ==> 0 <= start && start <= len(input) && sameslice(result, cache.slots)
+//@   ensures result != nil ==> (forall j :: 0 <= j && j < len(result) ==> result[j] == -1 || (start <= result[j] && result[j] <= len(input)))
+//@   loop 1: invariant -1 <= rangeindex && rangeindex <= rangelen && rangelen == len(slots) && sameslice(slots, cache.slots) && slots != nil
+//@   loop 1: invariant forall j :: 0 <= j && j <= rangeindex && j < len(slots) ==> slots[j] == -1 || (start <= slots[j] && slots[j] <= len(input))
+//@   loop 1: invariant forall j :: rangeindex < j && j < len(slots) ==> -1 <= slots[j] && slots[j] <= len(input) - start
+//@   loop 1: decreases rangelen - rangeindex
